@@ -18,6 +18,8 @@ Decided (wiring of the RFC 8032 data flow, as canonical dataflow expressions ove
   sc32       32-bit backend: reduce_from_wide_bytes and muladd read consecutive 21-bit digits, are congruent to the input /
              a*b+c modulo L as polynomial identities (all carries cancel, every fold uses L's digits), keep every
              intermediate within i64 and end in reduced digits packed into consecutive output bits; clamp / sign rules on K2
+  fe-use     32-bit backend: every call site of a field operation anywhere in the crate hands it operands built from at most
+             three TIGHT values without a carry (the contract fe-bounds proves); nobody outside fe32 touches Fe limbs
 Not decided: group law, scalar64 Barrett arithmetic as numbers."""
 import re
 
